@@ -35,7 +35,7 @@ def run(tier):
     res2, gcases = R.grid_cases(f"{PID}_grid")
     V.model(res2, "Result.tla scope=grid (EmpiricalMapping, NoneTable)")
     R.replay_grid(V, PID, gcases, NAMES, "grid")
-    R.run_traces(V, PID, tier, common.seed(), lambda rnd: [], n_quick=8)
+    R.run_traces(V, PID, tier, common.seed(), lambda rnd: [("single", 4), ("identical",)], n_quick=8)
     # scatter at scale on every backend, including coherent lines far above the noise floor (large mean, tiny scatter)
     import random
     from .. import traces
